@@ -4,7 +4,7 @@ from __future__ import annotations
 import ast
 
 from ..lib import Facts, calls_in, len_eq, own_nodes, stmt_of
-from ..model import AnalysisError
+from ..model import AnalysisError, FuncInfo
 from ..report import Run
 from ..terms import TermCtx, contains, show, strip_sites, unphi_terms
 
@@ -29,6 +29,7 @@ def check(run: Run) -> None:
     run.rule("C03.R4", "bracket counters paired per bracket kind; stop only at depth zero; comments skipped")
     run.rule("C03.R5", "def path re-parses inspect.getsource(callable)")
     run.rule("C03.R6", "same-line scan stops at tokenize.NEWLINE only")
+    run.rule("C03.R8", "on the def path only leading blanks are removed from the callable's source lines before parsing (no character of code or of a string is cut)")
     run.rule("C03.R7", "a `def` token is searched for only when the callable handed in is not a lambda (callable.__name__ != '<lambda>')")
     ctx = TermCtx(m, max_depth=1, opaque={"rewrite_func_as_lambda", "_get_lambda_in_stream", "_realign_indent", "_get_sourcelines"})
     ps = m.find_func("_parse_source_for_lambda", in_module=mod)
@@ -237,12 +238,79 @@ def check(run: Run) -> None:
     run.floor("C03.R6", n_fi_calls, 2, "find_identifier call sites")
     # ---------------- R7: which keyword starts the function is decided by the kind of callable handed in
     _check_kind(run, m, ctx, ps, srcp)
+    # ---------------- R8: the text handed to the parser on the def path is the callable's source minus blanks
+    _check_dedent(run, m, ctx, ps, gs)
     # name match: returns (previous NAME token, this token) when t.string in identifier
     for s, n in ffa.returns():
         if _returns_found(s):
             fx = Facts(ffa, s)
             ok = any(pol and isinstance(a, ast.Compare) and isinstance(a.ops[0], ast.In) and "string" in ast.unparse(a.left) for a, pol in fx.atoms) and any(pol and "NAME" in ast.unparse(a) for a, pol in fx.atoms)
             run.check(ok, "C03.R6", fi_, s, "identifier found iff a NAME token whose string is in the list", "find_identifier's match condition is not 'NAME token whose string is one of the identifiers'")
+
+
+def _check_dedent(run: Run, m, ctx, ps, getsource_calls) -> None:
+    """R8. inspect.getsource(callable) is indented as in the file; what re-aligns it may remove, per line, at most that
+    line's own leading blanks - a continuation line inside brackets or a multi-line string may start left of the def.
+    Found by role: the package function(s) the getsource text passes through on its way to ast.parse."""
+    from ..model import parent as _parent
+
+    helpers = []
+    for c in getsource_calls:
+        par = _parent(c)
+        while isinstance(par, ast.Call) and isinstance(par.func, ast.Name):
+            tgt = m.lookup_target(m.resolve_dotted(ps.module, ps, par.func.id))
+            if isinstance(tgt, FuncInfo):
+                helpers.append(tgt)
+            par = _parent(par)
+    n_cut = 0
+    for h in helpers:
+        if not h.pos_params:
+            continue
+        fa = ctx.analysis(h)
+        for n in own_nodes(h):
+            # a slice x[k:] that drops a prefix of a piece of the text
+            if not (isinstance(n, ast.Subscript) and isinstance(n.ctx, ast.Load) and isinstance(n.slice, ast.Slice) and n.slice.lower is not None and n.slice.upper is None and n.slice.step is None):
+                continue
+            if not fa.cfg.has_node(n):
+                continue
+            subj = n.value
+            if not isinstance(subj, ast.Name):
+                continue
+            n_cut += 1
+            low = n.slice.lower
+            # the bound looks at the line it cuts: min(k, <blanks of this line>), len(line) - len(line.lstrip()), ..
+            about_line = any(isinstance(x, ast.Name) and x.id == subj.id for x in ast.walk(low))
+            # .. or the cut is made only where the prefix is blank
+            guarded = False
+            from ..model import ancestors as _anc
+
+            child = n
+            for a in _anc(n):
+                if isinstance(a, ast.IfExp) and child is a.body:
+                    guarded = guarded or any(isinstance(x, ast.Name) and x.id == subj.id for x in ast.walk(a.test))
+                if isinstance(a, ast.comprehension) or isinstance(a, ast.stmt):
+                    break
+                child = a
+            for g in [p for p in _anc(n) if isinstance(p, (ast.ListComp, ast.GeneratorExp))][:1]:
+                for gen in g.generators:
+                    guarded = guarded or any(isinstance(x, ast.Name) and x.id == subj.id for i_ in gen.ifs for x in ast.walk(i_))
+            for a, pol in Facts(fa, n).atoms:
+                guarded = guarded or any(isinstance(x, ast.Name) and x.id == subj.id for x in ast.walk(a))
+            run.check(
+                about_line or guarded,
+                "C03.R8",
+                h,
+                stmt_of(n),
+                "a line loses at most its own leading blanks",
+                f"{h.name} cuts {ast.unparse(low)} characters from the start of every line whatever they are: a continuation line inside brackets (or a multi-line string) that is indented less than the def loses code - def f(x): return (x.a\\n  -1 + 2) indented by four is recorded as x.a + 2",
+                "ln[min(spaces, len(ln) - len(ln.lstrip())):]",
+                key="source lines cut by a fixed width",
+            )
+    run.notes["dedent_helpers"] = [h.name for h in helpers]
+    if helpers:
+        run.floor("C03.R8", n_cut, 0, "prefix cuts in the re-aligning helper")
+    else:
+        run.ok("C03.R8", ps, "getsource text reaches ast.parse without passing through a package helper")
 
 
 def _literal_alternatives(e: ast.AST, f_=None, _depth: int = 0):
